@@ -173,12 +173,21 @@ def structured(ctx, ht):
     init = P.func(RF.READER + '.__init__')
     st = [a for a in ast.walk(init.node) if isinstance(a, ast.Assign) and U(a.targets[0]) == 'self.structured']
     exprs = [U(a.value).replace(' ', '') for a in st]
-    want = ('self.tracecount==self.n_ilines*self.n_xlines', 'self.tracecount==self.n_xlines*self.n_ilines',
-            '(self.tracecount==self.n_ilines*self.n_xlines)')
-    if any(x in want for x in exprs):
-        ctx.ok('C05.5', init, [a for a in st if U(a.value).replace(' ', '') in want][0], 'structured = tracecount == n_il*n_xl')
+
+    def is_grid_test(e):
+        if not (isinstance(e, ast.Compare) and len(e.ops) == 1 and isinstance(e.ops[0], ast.Eq)):
+            return False
+        sides = [e.left, e.comparators[0]]
+        tcs = [x for x in sides if U(x) == 'self.tracecount']
+        prods = [x for x in sides if isinstance(x, ast.BinOp) and isinstance(x.op, ast.Mult) and
+                 {U(x.left), U(x.right)} == {'self.n_ilines', 'self.n_xlines'}]
+        return len(tcs) == 1 and len(prods) == 1
+    good = [a for a in st if is_grid_test(a.value)]
+    others = [a for a in st if not is_grid_test(a.value) and not (isinstance(a.value, ast.Constant) and a.value.value is False)]
+    if good and not others:
+        ctx.ok('C05.5', init, good[0], 'structured = tracecount == n_il*n_xl')
     else:
-        ctx.fail('C05.5', init, st[0] if st else init.name, 'structured is computed as %s, not tracecount == n_ilines*n_xlines' % exprs)
+        ctx.fail('C05.5', init, (others or st or [init.name])[0], 'structured is computed as %s, not tracecount == n_ilines*n_xlines' % exprs)
     tc = [a for a in ast.walk(init.node) if isinstance(a, ast.Assign) and U(a.targets[0]) == 'self.tracecount']
     slot = [s for s in ht.loads if s.func is init and TB.role_of_row(ht.row_of(s)[0]) == ('TRACECOUNT', None)] \
         if True else []
